@@ -1,6 +1,7 @@
 import DigModel.Proofs.Retry
 import DigModel.Proofs.ProvApi
 import DigModel.Proofs.RootCauseProgram
+import DigModel.Proofs.ValErr
 /-
   C07 — Failed executions contribute nothing and are retried.
 
@@ -120,6 +121,27 @@ example : (7, 3) ∈ (Val.sl [Val.tok 7 3 0 0, Val.zero 5]).toks := by decide
 theorem C07_first_failure_is_reported (p : Program) : ∀ r ∈ (runProgram p).2, r.v ≠ .panicDig → r.v ≠ .fuel → Reported p.ctx r :=
   runOps_reported p.ctx p.fns p.ops
 
+/-- a result of a *value* type that implements `error` (a struct with a value-receiver `Error` method) is never a nil
+    interface: in any program (functions named uniquely by their ids), **a function that declares such a result never
+    completes successfully**, whatever its script says — its body never returns `ok` and its exit event never reads
+    `ok`; by `C07_failed_never_delivered` nothing it returns is ever handed to anyone.  (DryRun containers excepted:
+    there the model is not used, DESIGN §12.) -/
+theorem C07_value_typed_error_never_succeeds (p : Program) (fn : Fn) (hmem : fn ∈ p.fns)
+    (huniq : ∀ g ∈ p.fns, g.id = fn.id → g = fn) (hv : (forcedOf p.types fn).isSome = true) (st : St) :
+    (∀ x len, bodyRes p.ctx fn st ≠ .ok x len) ∧ exitKind p.ctx fn (p.ctx.beh fn.id (st.execCount fn.id)) ≠ .ok :=
+  valErr_never_ok p fn hmem huniq hv st
+
+/-- non-vacuity (a test): `func() (*T1, VErr)` with `VErr` a struct type that implements `error` has a forced entry;
+    `func() (*T1, error)` has none -/
+example : (forcedOf [{ id := 0, kind := .iface, elem := none, impl := [], isErr := true },
+      { id := 11, kind := .ptr, elem := none, impl := [], isErr := false },
+      { id := 25, kind := .struct, elem := none, impl := [], isErr := true }]
+    { id := 1, name := "f", nonfunc := none, ins := [], variadic := false, outs := [.univ 11, .univ 25] }).isSome = true ∧
+  (forcedOf [{ id := 0, kind := .iface, elem := none, impl := [], isErr := true },
+      { id := 11, kind := .ptr, elem := none, impl := [], isErr := false }]
+    { id := 1, name := "f", nonfunc := none, ins := [], variadic := false, outs := [.univ 11, .univ 0] }).isSome = false := by
+  decide
+
 #print axioms C07_first_failure_is_reported
 #print axioms C07_failed_writes_nothing
 #print axioms C07_failed_never_delivered
@@ -128,4 +150,5 @@ theorem C07_first_failure_is_reported (p : Program) : ∀ r ∈ (runProgram p).2
 #print axioms C07_retry_ctor
 #print axioms C07_retry_deco
 #print axioms C07_others_kept
+#print axioms C07_value_typed_error_never_succeeds
 end Dig.C07
